@@ -123,6 +123,37 @@ static void detect_arm_features(void) {
 
 #endif
 
+#ifdef CARQUET_VERIF
+#include <stdlib.h>
+/* Verification hook: CARQUET_VERIF_CPU_CAP lists (comma separated) the CPU
+ * features that stay reported after detection, e.g. "sse2,sse41,sse42,avx,avx2";
+ * "none" clears all. Features the CPU lacks are never added. Lets the
+ * dispatcher be exercised for every ISA level on one machine. */
+static void carquet_verif_cap_cpu_features(void) {
+    const char* cap = getenv("CARQUET_VERIF_CPU_CAP");
+    if (!cap) return;
+    char list[256];
+    size_t n = strlen(cap);
+    if (n + 3 > sizeof(list)) return;
+    list[0] = ',';
+    memcpy(list + 1, cap, n);
+    list[n + 1] = ',';
+    list[n + 2] = '\0';
+#define CARQUET_VERIF_KEEP(field, name) \
+    if (!strstr(list, "," name ",")) g_cpu_info.field = 0
+    CARQUET_VERIF_KEEP(has_sse2, "sse2");
+    CARQUET_VERIF_KEEP(has_sse41, "sse41");
+    CARQUET_VERIF_KEEP(has_sse42, "sse42");
+    CARQUET_VERIF_KEEP(has_avx, "avx");
+    CARQUET_VERIF_KEEP(has_avx2, "avx2");
+    CARQUET_VERIF_KEEP(has_avx512f, "avx512f");
+    CARQUET_VERIF_KEEP(has_avx512bw, "avx512bw");
+    CARQUET_VERIF_KEEP(has_avx512vl, "avx512vl");
+    CARQUET_VERIF_KEEP(has_avx512vbmi, "avx512vbmi");
+#undef CARQUET_VERIF_KEEP
+}
+#endif /* CARQUET_VERIF */
+
 carquet_status_t carquet_init(void) {
     /* Fast path: already initialized */
     if (g_initialized) {
@@ -136,6 +167,10 @@ carquet_status_t carquet_init(void) {
     detect_x86_features();
 #elif defined(__aarch64__) || defined(_M_ARM64) || defined(__arm__) || defined(_M_ARM)
     detect_arm_features();
+#endif
+
+#ifdef CARQUET_VERIF
+    carquet_verif_cap_cpu_features();
 #endif
 
     /* Initialize compression lookup tables.
